@@ -458,6 +458,19 @@ def splitOn (p : Nat → Bool) : Bytes → List Bytes
     else match splitOn p t with
       | h :: r => (b :: h) :: r
       | [] => [[b]]
+/-- `xs.iter().filter_map(|t| p(t).transpose()).collect::<Result<Vec<_>, _>>()`: the values in order, `Ok(None)`
+    dropped, the first error (or panic) wins. -/
+def collectOpt {α : Type} (p : Bytes → Res (Option α)) : List Bytes → Res (List α)
+  | [] => Res.ok []
+  | t :: ts =>
+    match p t with
+    | Res.err e => Res.err e
+    | Res.panic => Res.panic
+    | Res.ok o =>
+      match collectOpt p ts with
+      | Res.err e => Res.err e
+      | Res.panic => Res.panic
+      | Res.ok r => Res.ok (o.toList ++ r)
 /-- `Vec::insert(i, x)`: panics when `i > len`. -/
 def vecInsert {α : Type} (v : List α) (i : Nat) (x : α) : Res (List α) :=
   if i ≤ v.length then Res.ok (v.take i ++ x :: v.drop i) else Res.panic
